@@ -10,11 +10,21 @@ import AttrsModel.Model.Init
 namespace Attrs.C08
 open Attrs.Init Lean
 
+/-- what the `__setattr__` reset looks at in one class of the leaf's `__mro__[1:-1]` (nearest first; the same
+    classes for both builds) -/
+structure HookBase where
+  /-- member of the leaf's `__bases__` -/
+  direct : Bool
+  /-- value of `__attrs_own_setattr__` in its own `__dict__` -/
+  ownSetattr : Option Bool
+  deriving DecidableEq, Repr, FromJson, ToJson, Inhabited
+
 structure MetaCase where
   /-- the specification built with `slots=True`, layout facts read from that class -/
   on : Init.Case
   /-- the same specification built with `slots=False` -/
   off : Init.Case
+  mro : List HookBase
   deriving Repr, FromJson, ToJson, Inhabited
 
 structure MetaObs where
@@ -22,12 +32,27 @@ structure MetaObs where
   off : Init.Obs
   /-- groups of further observables on which the two builds differ -/
   diff : List String
+  /-- the build put `object.__setattr__` into the class dict (reset of an inherited attrs-made `__setattr__`) -/
+  resetOn : Bool
+  resetOff : Bool
   deriving DecidableEq, Repr, FromJson, ToJson, Inhabited
 
 /-- construction observables compared here; the hash cache attribute belongs to C04 -/
 def ctorObs (c : Init.Case) : Init.Obs := { runInit c with cache := none }
 
+/-- the builder writes its own `__setattr__`: frozen, or some field's assignment runs a hook (`add_setattr`) -/
+def wroteSetattr (c : Init.Case) : Bool := c.eff.cfg.frozen || c.eff.attrs.any (inSaAttrs c.eff.cfg)
+
+/-- `_create_slots_class`: reset iff nothing written and a *direct* base's own flag is true -/
+def metaSlotsReset (c : MetaCase) : Bool :=
+  !wroteSetattr c.on && c.mro.any (fun b => b.direct && b.ownSetattr == some true)
+
+/-- `_patch_original_class`: reset iff nothing written and the flag *resolved along the MRO* is true -/
+def metaDictReset (c : MetaCase) : Bool :=
+  !wroteSetattr c.off && ((c.mro.findSome? (·.ownSetattr)).getD false)
+
 def metaModel (c : MetaCase) : MetaObs :=
-  { on := ctorObs c.on, off := ctorObs c.off, diff := [] }
+  { on := ctorObs c.on, off := ctorObs c.off, diff := [],
+    resetOn := metaSlotsReset c, resetOff := metaDictReset c }
 
 end Attrs.C08
